@@ -3,6 +3,10 @@ package main
 import (
 	"fmt"
 	"go/ast"
+	"io/fs"
+	"os"
+	"path/filepath"
+	"sort"
 	"strings"
 )
 
@@ -250,5 +254,36 @@ func genG11Shutdown(repo string, w *Out) error {
 		}
 	}
 	w.DefZ("default_shutdown_timeout_ms", stms)
+
+	// ---- HTTP/2 inside an intercepted (MITM) session: h2.Config.Proxy(closeCh, ...) ends BOTH relays the
+	// moment the closing signal is set (streams in flight are cut) — a path the LTS does not have.  It is
+	// reachable only if some production code calls mitm.Config.SetH2Config; list the callers.
+	var h2callers []string
+	filepath.WalkDir(repo, func(path string, d fs.DirEntry, err error) error { //nolint:errcheck
+		if err != nil {
+			return nil
+		}
+		rel, _ := filepath.Rel(repo, path)
+		if d.IsDir() {
+			if strings.HasPrefix(d.Name(), ".") || rel == "internal/martian/h2/testing" || rel == "e2e" || rel == "verifhook" {
+				return filepath.SkipDir
+			}
+			return nil
+		}
+		if !strings.HasSuffix(path, ".go") || strings.HasSuffix(path, "_test.go") || strings.HasPrefix(d.Name(), "zz_verif") {
+			return nil
+		}
+		b, err := os.ReadFile(path)
+		if err == nil && strings.Contains(string(b), ".SetH2Config(") {
+			h2callers = append(h2callers, rel)
+		}
+		return nil
+	})
+	sort.Strings(h2callers)
+	w.DefStrList("h2_in_mitm_enabled_by", h2callers)
+	// multiple listeners: run() starts one Serve per listener on the same martian.Proxy
+	runSrc := hp.Src(run.Body)
+	w.DefBool("run_serves_every_listener_on_one_proxy",
+		strings.Contains(runSrc, "for i := range hp.listeners") && strings.Contains(runSrc, "hp.proxy.Serve(l)"))
 	return nil
 }
